@@ -490,6 +490,146 @@ func stripConv(v ssa.Value) ssa.Value {
 	return v
 }
 
+// canonX is stripConv extended across one call boundary: a parameter of a
+// private helper with exactly one call site is replaced by the argument passed
+// there (use only for value identity, never for CFG reasoning).
+func canonX(v ssa.Value) ssa.Value {
+	for i := 0; i < 6; i++ {
+		v = stripConv(v)
+		p, ok := v.(*ssa.Parameter)
+		if !ok {
+			return v
+		}
+		a := uniqueArg(p)
+		if a == nil {
+			return v
+		}
+		v = a
+	}
+	return v
+}
+
+// staticSites: every static call site of every go-nfsd function, built once per program.
+var staticSites map[*ssa.Function][]ssa.CallInstruction
+
+func buildStaticSites(p *Program) {
+	staticSites = map[*ssa.Function][]ssa.CallInstruction{}
+	for _, fn := range p.RepoFuncs() {
+		for _, b := range fn.Blocks {
+			for _, in := range b.Instrs {
+				if ci, ok := in.(ssa.CallInstruction); ok {
+					if cal := ci.Common().StaticCallee(); cal != nil && IsRepoFunc(cal) {
+						staticSites[cal] = append(staticSites[cal], ci)
+					}
+				}
+			}
+		}
+	}
+}
+
+func isPrivateHelper(fn *ssa.Function) bool {
+	if fn == nil || fn.Parent() != nil {
+		return false
+	}
+	o := fn.Object()
+	return o != nil && !o.Exported()
+}
+
+// uniqueArg: for a parameter of an unexported function that has exactly one
+// (static, non-go/defer) call site and is never used as a value, the argument
+// passed there.
+func uniqueArg(p *ssa.Parameter) ssa.Value {
+	fn := p.Parent()
+	if !isPrivateHelper(fn) || staticSites == nil {
+		return nil
+	}
+	sites := staticSites[fn]
+	if len(sites) != 1 {
+		return nil
+	}
+	call, ok := sites[0].(*ssa.Call)
+	if !ok || call.Parent() == fn {
+		return nil
+	}
+	// the function must not escape as a value (method values, closures): only called
+	if fn.Referrers() != nil {
+		for _, r := range *fn.Referrers() {
+			if ci, ok := r.(ssa.CallInstruction); !ok || ci.Common().Value != ssa.Value(fn) {
+				return nil
+			}
+		}
+	}
+	for i, q := range fn.Params {
+		if q == p && i < len(call.Call.Args) {
+			return call.Call.Args[i]
+		}
+	}
+	return nil
+}
+
+// actsFor: fn is one of the allowed functions, or a private helper / closure
+// all of whose callers act for an allowed function (a block of statements
+// extracted from it).
+func actsFor(p *Program, fn *ssa.Function, allowed func(*ssa.Function) bool, depth int) bool {
+	if fn == nil {
+		return false
+	}
+	if allowed(fn) {
+		return true
+	}
+	if depth > 3 {
+		return false
+	}
+	if fn.Parent() != nil {
+		return actsFor(p, fn.Parent(), allowed, depth+1)
+	}
+	if !isPrivateHelper(fn) {
+		return false
+	}
+	sites := staticSites[fn]
+	if len(sites) == 0 {
+		return false
+	}
+	for _, s := range sites {
+		if !actsFor(p, s.Parent(), allowed, depth+1) {
+			return false
+		}
+	}
+	return true
+}
+
+// ownerOf: the function a private single-caller helper (or closure) acts for;
+// used for construct keys so that extracting a helper does not move a finding.
+func ownerOf(fn *ssa.Function) *ssa.Function {
+	for i := 0; i < 3; i++ {
+		if fn == nil {
+			return nil
+		}
+		if fn.Parent() != nil {
+			fn = fn.Parent()
+			continue
+		}
+		if !isPrivateHelper(fn) {
+			return fn
+		}
+		sites := staticSites[fn]
+		if len(sites) == 0 {
+			return fn
+		}
+		owner := sites[0].Parent()
+		for _, s := range sites {
+			if s.Parent() != owner {
+				return fn
+			}
+		}
+		if owner == fn {
+			return fn
+		}
+		fn = owner
+	}
+	return fn
+}
+
 var canonElemMemo = map[*ssa.Function]map[string]ssa.Value{}
 
 // canonElem: loads s[k] (constant k) of a slice of inode pointers that is not
@@ -786,4 +926,91 @@ func callTo(fs ...*ssa.Function) func(ssa.Instruction) bool {
 		}
 		return false
 	}
+}
+
+// ---------------------------------------------------------------- helper scopes
+
+// Subst maps the parameters of a private helper to the arguments of one call
+// site (composed across nesting).
+type Subst map[*ssa.Parameter]ssa.Value
+
+// A Scope is a function body seen as part of an owner function: the owner
+// itself (empty substitution) or a private helper statically called from it,
+// once per call site.
+type Scope struct {
+	Fn  *ssa.Function
+	S   Subst
+	Via *ssa.Call // call site in the enclosing scope (nil for the owner)
+}
+
+func (s Subst) resolve(v ssa.Value) ssa.Value {
+	for i := 0; i < 6; i++ {
+		v = stripConv(v)
+		p, ok := v.(*ssa.Parameter)
+		if !ok {
+			return v
+		}
+		a, ok := s[p]
+		if !ok {
+			return v
+		}
+		v = a
+	}
+	return v
+}
+
+// scopesOf: f plus the bodies of the unexported go-nfsd functions it calls
+// statically (depth <= 2), one scope per call site.
+func scopesOf(f *ssa.Function) []Scope {
+	out := []Scope{{Fn: f, S: Subst{}}}
+	var rec func(sc Scope, d int)
+	rec = func(sc Scope, d int) {
+		if d >= 2 {
+			return
+		}
+		for _, b := range sc.Fn.Blocks {
+			for _, in := range b.Instrs {
+				call, ok := in.(*ssa.Call)
+				if !ok {
+					continue
+				}
+				h := call.Call.StaticCallee()
+				if h == nil || h == f || h == sc.Fn || !isPrivateHelper(h) || !IsRepoFunc(h) || h.Blocks == nil {
+					continue
+				}
+				s := Subst{}
+				for k, v := range sc.S {
+					s[k] = v
+				}
+				for i, p := range h.Params {
+					if i < len(call.Call.Args) {
+						s[p] = sc.S.resolve(call.Call.Args[i])
+					}
+				}
+				n := Scope{Fn: h, S: s, Via: call}
+				out = append(out, n)
+				rec(n, d+1)
+			}
+		}
+	}
+	rec(out[0], 0)
+	return out
+}
+
+// loadedFieldS is loadedField under a substitution.
+func loadedFieldS(v ssa.Value, s Subst) (*types.Named, string, ssa.Value, bool) {
+	v = s.resolve(v)
+	if u, ok := v.(*ssa.UnOp); ok && u.Op == token.MUL {
+		if ia, ok := u.X.(*ssa.IndexAddr); ok {
+			if n, f, base := fieldLoad(s.resolve(ia.X)); n != nil {
+				return n, f, s.resolve(base), true
+			}
+		}
+	}
+	if ix, ok := v.(*ssa.Index); ok {
+		if n, f, base := fieldLoad(s.resolve(ix.X)); n != nil {
+			return n, f, s.resolve(base), true
+		}
+	}
+	return loadedField(v)
 }
